@@ -52,7 +52,8 @@ def derivativeN (p : Array K) : Nat → Res (Array K)
 /-- `derivative_at(x, n)` -/
 def derivativeAt (p : Array K) (x : K) (n : Nat) : Res K := do
   let q ← derivativeN p n
-  eval q x
+  -- the (degree+1)-th derivative is the empty (zero) polynomial: its value is 0 (repair D16)
+  if q.size = 0 then .ok 0 else eval q x
 
 /-- `&p + &q` -/
 def add (p q : Array K) : Array K :=
